@@ -26,7 +26,7 @@ func init() {
 			"oracle: parallel walk of the cursor tree against the document (expanded names, attributes without namespace declarations, merged character data, comments, PIs without the XML declaration, per-element namespace nodes = in-scope bindings + xml each owned by that element) plus the C10 structural invariants; " +
 			"malformed inputs by mutation (dropped/mismatched end tag, truncation, undefined entity, control characters, invalid UTF-8, bogus encoding label): whenever encoding/xml itself (same charset reader) reports a non-EOF error on the bytes, ReadXml must return a non-nil error. distinct_nontrivial = distinct (document shape, serialisation feature set) for well-formed inputs plus distinct mutation kinds x shapes",
 		Assumptions: []string{"attribute order/duplicates, CRLF normalisation and charset tables are encoding/xml's and x/net's, not xsel's", "white space outside the document element is not part of the data model"},
-		NCases:      func(tier string) int { return map[string]int{"quick": 1200, "thorough": 40000}[tier] },
+		NCases:      func(tier string) int { return map[string]int{"quick": 30000, "thorough": 1000000}[tier] },
 		Case:        c09Case,
 	})
 }
